@@ -2,7 +2,9 @@ SPEC = dict(
     id="C17",
     bin="c17",
     coq_dir="C17",
-    coq_targets=["C17/Proofs.vo", "C17/Closure.vo", "C17/Idempotent.vo", "C17/IndexMap.vo", "C17/Gvar.vo", "C17/Examples.vo"],
+    coq_targets=["C17/Proofs.vo", "C17/Closure.vo", "C17/Idempotent.vo", "C17/IndexMap.vo", "C17/Gvar.vo", "C17/Examples.vo",
+                 "C17/PreservesAll.vo", "C17/IdempotentRetain.vo", "C17/IndexMapMax.vo", "C17/Loca.vo", "C17/LocaPlan.vo",
+                 "C17/ExamplesPA.vo", "C17/ExamplesIR.vo", "C17/ExamplesIM.vo", "C17/ExamplesLoca.vo"],
     allowed_axioms=[],
     level_text=("Unbounded Coq theorems about an executable model of klippa's subsetting plan and per-glyph tables over an "
                 "abstract TrueType font (glyph kinds with component lists, hmtx long/short arrays, cmap pairs, UVS triples, COLR "
@@ -12,7 +14,18 @@ SPEC = dict(
                 "loop and zero-filled gaps; the subset's character list is exactly {(c, map g)} for requested c or g; a kept "
                 "glyph's record is the original with component ids renamed; the retained set is the least component-closed set containing the "
                 "roots (no junk); subsetting to everything is the identity renumbering; subsetting the subset again with the same request "
-                "keeps every glyph with the identity renumbering (rank mode, no COLR/UVS, no truncation). "
+                "keeps every glyph with the identity renumbering (rank mode, no COLR/UVS, no truncation), and under RETAIN_GIDS keeps "
+                "exactly the same ids with the identity renumbering (c17_subset_idempotent_retain_gids). ONE combined theorem "
+                "(c17_subset_preserves_all) states all of it end to end for both RETAIN_GIDS settings: table shapes, and for every kept "
+                "glyph its new id, advance / side bearing on both sides of the long-metrics / short-tail boundary, its record with "
+                "renamed components, and for every kept code point the renumbered glyph and nothing else. "
+                "loca (glyf_loca.rs): the short format is chosen iff the padded total is below 0x1FFFF, the stored offsets read back are "
+                "the prefix sums of the padded glyph lengths, the range read back is exactly where the glyph was embedded (short "
+                "format; long format only for even lengths - refuted otherwise, known finding), and the u16 running offset panics "
+                "exactly in the known-finding band 0x10000..0x1FFFE (c17_loca_*); the model's loca is compared with klippa's loca "
+                "bytes and head.indexToLocFormat in every shard case, including the cases where the two known loca defects fire. "
+                "HVAR/VVAR: IndexMapSubsetPlan::new provably records a maximum covering every inner index it later remaps "
+                "(c17_indexmap_max_covers), which closes the hypothesis of the index-map round trip. "
                 "The retained set is component-closed under the explicit hypotheses the code needs (component ids inside the font, "
                 "nesting at most 65 levels, operation budget >= number of glyphs); without them the statement is FALSE of the faithful "
                 "model (closure stops at nesting depth 64 / an operation budget): proved refuted with witnesses that reproduce on the "
@@ -25,18 +38,23 @@ SPEC = dict(
                 "harness's abstraction of a font (hashes stand for glyph contents). Not modelled: serializer byte packing "
                 "(loca/glyf offsets, cmap4/12/14 encoders), gvar/HVAR/COLR/layout subsetters, hint stripping - covered by the "
                 "implementation-only oracle, which currently reports several genuine defects there (see notes/C17.md). "
-                "subset_idempotent is proved for rank renumbering without COLR/UVS closures; RETAIN_GIDS / colour variants are tested only."),
+                "subset_idempotent is proved for both renumberings without COLR/UVS closures; colour / UVS variants are tested only. "
+                "The per-glyph byte lengths fed to the loca model are computed by the harness from the ORIGINAL font's raw glyf bytes "
+                "(own implementation of the trimming walk, independent of klippa); agreement of the whole loca table checks them too."),
     technique="Coq proof (induction over sorted lists / the trimming loop / the closure recursion) over hand-written Gallina model + vm_compute correspondence with klippa + skrifa-based implementation oracle",
     modelled=["klippa/src/lib.rs: Plan::new (unicode_to_new_gid_list rewrite), populate_unicodes_to_retain (both branches), populate_gids_to_retain (.notdef, cmap14 UVS closure, COLR closure as oracle, glyf_closure_glyphs with operation budget and MAX_NESTING_LEVEL), remove_invalid_gids, create_old_gid_to_new_gid_map (rank / RETAIN_GIDS)",
               "klippa/src/hmtx.rs: subset (bounds check, long/short placement, zero fill), compute_new_num_h_metrics, get_new_gid_advance; read-fonts hmtx advance/side_bearing lookups",
               "klippa/src/maxp.rs: numGlyphs; klippa/src/glyf_loca.rs: per-glyph record (empty / simple / composite with component ids rewritten through glyph_map, .notdef outline flag, unmapped component => empty glyph, unreadable glyph => table dropped)",
               "klippa/src/hvar.rs (shared with vvar.rs): IndexMapSubsetPlan::new / remap, HvarVvarSubsetPlan::new, serialize_index_maps; klippa/src/variations.rs DeltaSetIndexMap::subset (entry format byte, width, packing) - compared byte for byte with the subset's HVAR/VVAR index maps",
               "klippa/src/gvar.rs: the offset-format decision (size summed as the code does), GvarOffset::stored_value for both widths and the offsets array incl. RETAIN_GIDS gaps and the skipped .notdef - compared with the subset's real gvar flags word and offsets array",
+              "klippa/src/glyf_loca.rs: Glyf::subset's loca format decision (max_offset < 0x1FFFF), padded_size, both loops of write_glyf_loca (gap filling, u16 / u32 running offset incl. the `as u16` wrap and the overflow panic, offset >> 1), where each glyph's bytes are embedded (pad byte in the short branch only), subset_head's indexToLocFormat - compared with the subset's raw loca entries and head on every case, incl. the known-defect cases (OLocaOnly)",
               "klippa/src/cmap.rs: at the level of the (char, new gid) list and the encoding-record prerequisites; the format-4 writer (to_ranges / commit_current_range / glyphIdArray) is not modelled but its OUTPUT, read back through Cmap4 directly, is compared case by case with the predicted list"],
-    not_covered=["serialize.rs packing, loca offset arithmetic, cmap4/cmap12/cmap14 byte encoders: implementation-only oracle (finds C17:cmap4-id-range-offset-shared-base, C17:glyf-short-loca-u16-offset-overflow, C17:glyf-long-loca-unpadded-glyph-data, C17:cmap12-empty-subtable-invalid-group)",
+    not_covered=["serialize.rs packing, cmap4/cmap12/cmap14 byte encoders, the glyph BYTES written by subset_simple_glyph / subset_composite_glyph (only their lengths enter the loca model, computed independently by the harness): implementation-only oracle (finds C17:cmap4-id-range-offset-shared-base, C17:cmap12-empty-subtable-invalid-group; C17:glyf-short-loca-u16-offset-overflow and C17:glyf-long-loca-unpadded-glyph-data are now also reproduced by the model: c17_loca_short_overflow_panics, c17_loca_long_unpadded_refuted)",
+                 "u32 wrap of `padded_size(len) as u32` for a single glyph of 2^32-1 bytes (impossible inside an sfnt) is not modelled; a max_offset total above u32::MAX is modelled as a panic",
+                 "c17_indexmap_max_covers needs outer indexes below the ItemVariationData count (otherwise the plan loop breaks early while remap continues) and an explicit index map; the no-advance-map plan is reproduced by the model but not covered by the theorem",
                  "gvar data copy (oracle: byte-for-byte equality per kept glyph) / ItemVariationStore row subsetting / COLR / CPAL / layout / name / OS2 / post subsetters and hint stripping: implementation-only oracle (finds C17:hvar-dropped, C17:colr-dropped)",
                  "draw_commutes (abstract recursive draw) is not proved; outline/metric equality at sizes x locations and subset-of-subset stability of the real output are tested on the implementation",
-                 "model correspondence is restricted to requests whose kept glyph data is < 64 KiB (above that the loca writer defects fire) and to fonts with <= 1500 glyphs / <= 4000 cmap entries"],
+                 "when a known loca-writer defect fires (panic / long format above 64 KiB of kept glyph data) only the loca prediction is compared (OLocaOnly); model correspondence is restricted to fonts with <= 1500 glyphs / <= 4000 cmap entries"],
     assumptions=["cmap of the font is a function (NoDup of characters) for c17_cmap_exact / c17_closure_contains_requested / c17_subset_all_identity",
                  "num_output_glyphs <= 65535 for c17_hmtx_preserved (always true: glyph ids are 16-bit in glyf fonts)",
                  "the COLR closure is an oracle (per-glyph reach lists computed by read-fonts' own closure functions)"],
